@@ -14,6 +14,7 @@ from ..recipe import build as rb
 
 PID = "C06"
 _VERSIONS = (6, 8)
+_PADS = (126, 127)
 
 
 def descriptor_issues(shape):
@@ -107,6 +108,15 @@ def cross_uint_case(tgt, src, v, backend, version, out):
     return None, text
 
 
+def _annotatable(shape):
+    """tuples of more than five members have no annotation form (no way to declare them as an output)"""
+    try:
+        abi_gen.spec(shape).annotation_type()
+        return True
+    except TypeError:
+        return False
+
+
 def _worker(items, base):
     out = {"counters": {}, "outcomes": {}, "violations": [], "samples": []}
     cnt = out["counters"]
@@ -127,6 +137,19 @@ def _worker(items, base):
                                 "title": "%s value %r (%s, %s, v%d): %s" % (abi_gen.sig(shape), v, mode, backend, ver, why),
                                 "shape": shape, "value": v, "mode": mode, "backend": backend, "version": ver, "teal": text,
                                 "features": {"why": why.split(":")[0][:30], "mode": mode, "backend": backend}})
+        # the value as the output of an ABI-returning subroutine whose frame is (nearly) full
+        if not isinstance(shape, str) and vals and _annotatable(shape):
+            for v in (vals[0], vals[-1]) if len(vals) > 1 else (vals[0],):
+                for pad in _PADS:
+                    for ver in _VERSIONS:
+                        backend = "crowded%d" % pad
+                        why, text = run_case(shape, v, "lit", backend, ver, out)
+                        if why:
+                            out["violations"].append({
+                                "driver": "encode", "size": abi_gen.depth(shape),
+                                "title": "%s value %r (lit, %s, v%d): %s" % (abi_gen.sig(shape), v, backend, ver, why),
+                                "shape": shape, "value": v, "mode": "lit", "backend": backend, "version": ver, "teal": None,
+                                "features": {"why": why.split(":")[0][:30], "mode": "lit", "backend": "crowded"}})
         # range checks on narrow integers
         if isinstance(shape, str) and shape in abi_gen.BITS and abi_gen.BITS[shape] < 64:
             over = 1 << abi_gen.BITS[shape]
@@ -182,6 +205,8 @@ def run(tier):
     rep.rule = ("every type shape of the universe (a state) x boundary-value combinations (capped per shape at the stated "
                 "cap) x literal/run-time construction x main/subroutine storage x versions; transitions = values explored")
     _VERSIONS = (6, 8) if tier == "quick" else (5, 6, 7, 8, 10)
+    global _PADS
+    _PADS = (126, 127) if tier == "quick" else (0, 1, 120, 124, 125, 126, 127, 128, 129)
     _CAP = 5 if tier == "quick" else 10
     _RICH = tier != "quick"
     # shapes with more than 150 leaves cannot be assembled from parts within 256 scratch slots (they are in the
